@@ -124,7 +124,7 @@ Proof.
     set (left := lenN raw mod 4294967296).
     assert (Hleft : left <= lenN raw) by (subst left; apply N.mod_le; discriminate).
     set (iv := if iv_in =? 0 then (left / cnt) mod 256 else iv_in).
-    destruct (left <? iv * cnt) eqn:Eg; [discriminate|]. bools.
+    destruct (iv * cnt =? left) eqn:Eg; cbn [negb]; [|discriminate]. bools.
     cbn [ibox_wf]. unfold senc_sub. rewrite Ef. cbn [existsb orb negb].
     destruct (iv =? 0) eqn:Ei.
     + intros [= <- <- <- <-]. cbn [orb andb]. bools. rewrite Ei. apply N.leb_le. lia.
